@@ -100,4 +100,40 @@ def respond (d : FruDev) (cmd : Nat) (p : List Nat) : FruDev × List Nat :=
   else if cmd = cmdWrite then respondWrite d p
   else (d, [ccInvalidCmd])
 
+/-! ### faults at chosen request indices (histories: a write that fails midway and is resumed)
+
+  `FaultyDev` is the reference device plus a plan of faults keyed by the index of the request
+  (counted from the moment the plan was installed): `cc c` – the request is not processed, the
+  whole answer is completion code `c`; `short n` – a Write FRU Data stores and acknowledges only
+  the first `n` data bytes of the request (other commands are served normally).  With an empty
+  plan it is the reference device (`respondF_nofault`). -/
+
+inductive Fault where
+  | cc (c : Nat)
+  | short (n : Nat)
+  deriving Repr, DecidableEq, Inhabited
+
+structure FaultyDev where
+  dev : FruDev
+  seen : Nat
+  faults : List (Nat × Fault)
+  deriving Repr, Inhabited
+
+def faultAt : List (Nat × Fault) → Nat → Option Fault
+  | [], _ => none
+  | (i, f) :: r, n => if i = n then some f else faultAt r n
+
+def respondF (s : FaultyDev) (cmd : Nat) (p : List Nat) : FaultyDev × List Nat :=
+  match faultAt s.faults s.seen with
+  | some (.cc c) => ({ s with seen := s.seen + 1 }, [c])
+  | some (.short n) =>
+    let r := respond s.dev cmd (if cmd = cmdWrite then p.take (3 + n) else p)
+    ({ s with dev := r.1, seen := s.seen + 1 }, r.2)
+  | none =>
+    let r := respond s.dev cmd p
+    ({ s with dev := r.1, seen := s.seen + 1 }, r.2)
+
+theorem respondF_nofault (d : FruDev) (n cmd : Nat) (p : List Nat) :
+    respondF ⟨d, n, []⟩ cmd p = (⟨(respond d cmd p).1, n + 1, []⟩, (respond d cmd p).2) := rfl
+
 end PyIpmi.Spec.Fru
